@@ -3,6 +3,8 @@ package main
 // Ghost statements, switch, defer, closures, report/trace roles.
 
 import (
+	"bytes"
+	"go/printer"
 	"fmt"
 	"go/ast"
 	"go/token"
@@ -75,8 +77,9 @@ func (fv *FV) ghostAfter(st *State, s ast.Stmt) {
 func normSpace(s string) string { return strings.Join(strings.Fields(s), " ") }
 
 func (fv *FV) srcFull(n ast.Node) string {
-	save := fv.src(n)
-	return save
+	var b bytes.Buffer
+	printer.Fprint(&b, fv.w.fset, n)
+	return strings.Join(strings.Fields(b.String()), " ")
 }
 
 func (fv *FV) ghostAssignedIn(ord int) map[string]bool {
